@@ -5,7 +5,8 @@ from vlib import core
 
 PKG = "./lib/limit"
 OVERLAY = {"lib/limit/zz_verif_c08_test.go": "c08/limit_test.go"}
-W = 6
+W = 6                       # TLC workers
+SHARDS = 8                  # driver processes per replay (other checks run on the same machine)
 META = dict(
     text="Model-based replay of both limiters. PeriodLimit.tla states the window/quota rule independently over "
          "the log of takes and is model-checked against the counter+TTL mechanism; TokenLimit.tla keeps the "
@@ -27,6 +28,15 @@ META = dict(
          "further requests at frozen clocks - every request must still reach Redis and be decided as the model says "
          "(denials and OverQuota codes are not breaker failures). A two-outage family (drain the rescue bucket in outage 1, recover "
          "through the monitor's ping, outage 2 in the same caller second) checks that the in-process bucket keeps its state. "
+         "Outage DURATION is a dimension of its own: TokenLimit!Wait lets real (wall-clock) time pass during an outage without "
+         "changing anything of the state, anywhere between Down and Up (before the limiter has noticed the outage or while its "
+         "monitor is pinging); a family of TLC-enumerated behaviours with holds below and above 1 s and 2 s (thorough: 5 s) is "
+         "replayed side by side (own server per worker), half of them with outages as dropped connections instead of Close/Restart: "
+         "requests during the outage are the rescue bucket's and after Up the limiter returns to Redis however old its monitor is "
+         "(mechanism side: TokenMonitorImpl's variant of a monitor with a ping budget must be rejected). The Up step waits for the "
+         "return while the driver itself PINGs the server directly at the monitor's pace: a limiter still in fallback after an "
+         "unbroken series of answered PINGs over 10 s is the disagreement C08:token:no-return (whether or not a ping of the monitor "
+         "reached the server); a server that does not answer the driver either is harness trouble. "
          "Concurrent use (code -> spec): many goroutines on ONE limiter, in rounds of barrier-separated phases with clock steps "
          "between them (one caller asking for burst+1 tokens, callers for 1 and 2 tokens, callers with cancelled contexts; "
          "several takers per key on several keys), once with the binary built with the race detector (a race report is the "
@@ -37,8 +47,13 @@ META = dict(
          "AllowExact / DenialIdempotent otherwise; m concurrent takes of a key = PeriodLimit!Burst); hand-made rounds with a "
          "known answer guard the acceptor against vacuity.",
     note="Trusted: TLC, miniredis 2.23.1 (Lua via gopher-lua, TTL by FastForward) as the Redis environment, the "
-         "driver's barrier (after Up it waits, bounded, for the monitor's ping, reading redisAlive/monitorStarted "
-         "only as a barrier; the concurrent recovery stage watches redisAlive to place one late failure - a direct call of the "
+         "driver's barrier (after Up it waits for the monitor's ping, reading redisAlive/monitorStarted: reached = barrier; "
+         "not reached although the server has answered the driver's own direct PINGs (raw connection, PING with an argument) for 10 s "
+         "in a row = C08:token:no-return, confirmed in the message by a further AllowN that does not reach Redis; reachability of the "
+         "server after an outage is asked with that direct PING and a GET through the wrapper, never with the wrapper's Ping the "
+         "monitor relies on; hold steps are lower bounds of real time, no verdict depends on an upper bound except the generous 10 s; "
+         "during a Close/Restart outage a foreign listener on the server's port makes the behaviour disturbed (rerun), a server "
+         "that cannot be restarted is replaced and the behaviour rerun; the concurrent recovery stage watches redisAlive to place one late failure - a direct call of the "
          "unexported failure handler startMonitor, what reserveN does when a script call fails - between the monitor's "
          "redisAlive := 1 and monitorStarted := false, a sub-microsecond window that natural traffic does not hit; its "
          "verdict is public: an EVAL of the limiter's key must reach Redis again within 8 s). The breaker inside redis.Redis has its coin forced to 'never reject' (H2) so that "
@@ -68,7 +83,7 @@ def mc(ctx):
                           properties=["KeysIndependent", "FreshOnlyAfterExpiry"], constraints=["Bound_"])
     ctx.tlc("PeriodLimit", cfg, constants=K, defs=dict(Bound_="Len(log) <= %d /\\ srv <= %d" % ((4, 4) if ctx.quick else (5, 6))),
             name="PeriodLimit-mc", timeout=900, workers=W, heap="2g")
-    K = dict(Configs="{<<1,1>>, <<3,2>>, <<2,3>>}", MaxN=2, MaxStep=2)
+    K = dict(Configs="{<<1,1>>, <<3,2>>, <<2,3>>}", MaxN=2, MaxStep=2, Holds="{1000}")
     cfg = core.render_cfg(spec="Spec", constants=K, invariants=["TypeOK", "ScriptIsIdeal", "RedisIsIdeal", "Bound"],
                           properties=["Fallback", "Return", "OnlyPingReturns", "AllowExact", "DenialIdempotent"], constraints=["Bound_"])
     ctx.tlc("TokenLimit", cfg, constants=K, defs=dict(Bound_="Len(glog) <= %d /\\ now <= %d" % ((3, 3) if ctx.quick else (3, 4))),
@@ -89,7 +104,17 @@ def mc_monitor(ctx):
                 allow_violation=True)
     if r.violated != "NoDeadFallback":
         raise core.Infra("vacuous mechanism model: the hoisted-store variant of startMonitor is not rejected (%s)" % r.violated)
-    ctx.notes["TokenMonitorImpl"] = "asis: NoDeadFallback, NeverStuck, Return hold (3 callers); hoisted-store variant rejected"
+    # second guard, for the liveness property: a monitor whose pings succeed only for a limited time after its start
+    K = dict(Callers='{"c1"}', Variant='"deadline"')
+    # (NeverStuck is the safety form of Return: in fallback mode somebody who can still bring the limiter back is there;
+    # TLC rejects the liveness property Return for this variant with the same behaviour continued by Up and stuttering)
+    cfg = core.render_cfg(spec="Spec", constants=K, invariants=["TypeOK", "MonitorMatchesFlag", "NeverStuck"])
+    r = ctx.tlc("TokenMonitorImpl", cfg, constants=K, name="TokenMonitorImpl-deadline", timeout=600, workers=W, heap="2g",
+                allow_violation=True)
+    if r.violated != "NeverStuck":
+        raise core.Infra("vacuous mechanism model: a monitor whose pings stop succeeding after a while is not rejected (%s)" % r.violated)
+    ctx.notes["TokenMonitorImpl"] = "asis: NoDeadFallback, NeverStuck, Return hold (3 callers); hoisted-store variant rejected (NoDeadFallback); " \
+                                    "monitor with a ping budget rejected (NeverStuck)"
 
 
 def real_breaker(ctx, binp):
@@ -103,7 +128,7 @@ def real_breaker(ctx, binp):
     ctx.replay(PKG, OVERLAY, "^TestVerifC08Token$", path, label="tdrain", shards=4, binp=binp, env=dict(VERIF_REAL_BREAKER=1))
     cases = gen_token(ctx, "tdrain2", configs="{<<5,10>>, <<3,2>>}", maxlen=(7 if ctx.quick else 8), maxn=2, maxstep=1, maxdown=0)
     path, _ = ctx.write_cases("tdrain2.ndjson", cases)
-    ctx.replay(PKG, OVERLAY, "^TestVerifC08Token$", path, label="tdrain2", shards=16, binp=binp, env=dict(VERIF_REAL_BREAKER=1))
+    ctx.replay(PKG, OVERLAY, "^TestVerifC08Token$", path, label="tdrain2", shards=SHARDS, binp=binp, env=dict(VERIF_REAL_BREAKER=1))
     K = dict(Keys='{"a"}', Configs="{<<3,5>>, <<1,2>>, <<10,3>>}", MaxAdv=0, MaxBurst=1, MaxLen=n)
     cfg = core.render_cfg(spec="GSpec", constants=K, invariants=["Emit"])
     r = ctx.tlc("PeriodLimitGen", cfg, constants=K, name="pdrain", timeout=900, workers=2, heap="3g")
@@ -132,7 +157,62 @@ def two_outages(ctx, binp):
     if len(sel) < 10:
         raise core.Infra("two-outage family is nearly empty (%d)" % len(sel))
     path, _ = ctx.write_cases("t2o.ndjson", sel)
-    ctx.replay(PKG, OVERLAY, "^TestVerifC08Token$", path, label="t2o", shards=16, binp=binp)
+    ctx.replay(PKG, OVERLAY, "^TestVerifC08Token$", path, label="t2o", shards=SHARDS, binp=binp)
+
+
+def outage_duration(ctx, binp):
+    """Outage DURATION: TokenLimit!Wait lets real time pass during an outage (before the limiter has noticed it, or
+    while its monitor is already pinging), for less and for more than 1 s / 2 s (thorough: 5 s).  Whatever the duration,
+    requests during the outage are the rescue bucket's and after Up the limiter returns to Redis.  The behaviours mostly
+    wait, so they are replayed side by side (VERIF_PAR workers per process, each with its own server); every other one has
+    its outages as dropped connections instead of Close/Restart."""
+    import json, random
+    holds = [300, 1300, 2600] if ctx.quick else [150, 700, 1300, 2600, 5300]
+    cases = gen_token(ctx, "thold", configs="{<<1,2>>, <<3,2>>}", maxlen=(5 if ctx.quick else 6), maxn=(1 if ctx.quick else 2), maxstep=1, maxdown=1,
+                      holds="{" + ", ".join(map(str, holds)) + "}")
+    groups = {}
+    for c in cases:
+        st = json.loads(c)
+        ops = [x["op"] for x in st]
+        if "hold" not in ops:
+            continue
+        h, d = ops.index("hold"), ops.index("down")
+        u = next((i for i in range(h + 1, len(st)) if ops[i] == "up"), None)
+        noticed = "allow" in ops[d + 1:h]                                     # the monitor is pinging during the hold
+        during = "allow" in ops[h + 1:(len(st) if u is None else u)]          # requests to the rescue bucket after the hold
+        ping = u is not None and st[u]["ping"]                                # Up with the monitor running: the return to Redis
+        after = u is not None and "allow" in ops[u + 1:]                      # requests after the return
+        groups.setdefault((st[h]["ms"], noticed, during, ping, after), []).append(c)
+    rnd = random.Random(ctx.seed * 104729 + 8)
+    per = 16 if ctx.quick else 60                         # behaviours per hold value
+    sel = []
+    for ms in holds:
+        gs = [g for k, g in sorted(groups.items()) if k[0] == ms]
+        for g in gs:
+            rnd.shuffle(g)
+        # the return to Redis after the hold is what the dimension is about: groups with Up;Ping first and twice as often
+        order = [g for k, g in sorted(groups.items()) if k[0] == ms and k[3]] * 2 + gs
+        n0 = len(sel)
+        while order and len(sel) - n0 < per:
+            order = [g for g in order if g]
+            for g in order:
+                if g and len(sel) - n0 < per:
+                    sel.append(g.pop())
+    if len(sel) < len(holds) * per // 2:
+        raise core.Infra("outage-duration family is nearly empty (%d)" % len(sel))
+    sel.sort(key=lambda c: -max(x.get("ms", 0) for x in json.loads(c)))   # the long ones first
+    path, _ = ctx.write_cases("thold.ndjson", sel)
+    before = len(ctx.disagreements)
+    cnt, _ = ctx.replay(PKG, OVERLAY, "^TestVerifC08Token$", path, label="thold", shards=(4 if ctx.quick else 8), binp=binp,
+                        env=dict(VERIF_PAR=(12 if ctx.quick else 16)))
+    if len(ctx.disagreements) == before:                  # vacuity guards only when nothing disagrees
+        for k, n in (("up.ping.monitor-older-than-1s", 6), ("up.ping.monitor-older-than-2s", 3), ("hold.monitor-running", 10),
+                     ("hold.outage-not-yet-noticed", 3), ("allow.rescue", 10)):
+            if cnt.get(k, 0) < n:
+                raise core.Infra("outage-duration family is vacuous: counter %s = %d < %d" % (k, cnt.get(k, 0), n))
+    ctx.notes["outage-duration"] = "%d behaviours with an outage held for %s ms of real time; %d returns to Redis with the monitor older than 1 s, " \
+        "%d older than 2 s, %d older than 5 s" % (len(sel), "/".join(map(str, holds)), cnt.get("up.ping.monitor-older-than-1s", 0),
+                                                  cnt.get("up.ping.monitor-older-than-2s", 0), cnt.get("up.ping.monitor-older-than-5s", 0))
 
 
 # ---------------------------------------------------------------- concurrent use (code -> spec)
@@ -297,7 +377,7 @@ def conc_validate(ctx, rounds):
             for r in rs:
                 r.setdefault("canon", max(_orders(p) for p in r["phases"]) > 64)
             ctx.counters["concv.token.rounds-searched-in-every-order"] = len([r for r in rs if not r["canon"] and "synthetic" not in r])
-            K = dict(Configs="{" + ", ".join(sorted({"<<%d, %d>>" % (r["rate"], r["burst"]) for r in rs})) + "}", MaxN=1, MaxStep=1,
+            K = dict(Configs="{" + ", ".join(sorted({"<<%d, %d>>" % (r["rate"], r["burst"]) for r in rs})) + "}", MaxN=1, MaxStep=1, Holds="{}",
                      Rounds=tla([dict(rate=r["rate"], burst=r["burst"], phases=[_phase(p, True, r["canon"]) for p in r["phases"]]) for r in rs]))
         else:
             keys = sorted({o["k"] for r in rs for p in r["phases"] for o in p["obs"]})
@@ -413,8 +493,8 @@ def gen_period(ctx, name, configs, maxlen, maxadv, maxburst, simulate=None):
     return r.printed
 
 
-def gen_token(ctx, name, configs, maxlen, maxn, maxstep, maxdown, simulate=None):
-    K = dict(Configs=configs, MaxN=maxn, MaxStep=maxstep, MaxLen=maxlen, MaxDown=maxdown)
+def gen_token(ctx, name, configs, maxlen, maxn, maxstep, maxdown, simulate=None, holds="{}"):
+    K = dict(Configs=configs, MaxN=maxn, MaxStep=maxstep, MaxLen=maxlen, MaxDown=maxdown, Holds=holds)
     cfg = core.render_cfg(spec="GSpec", constants=K, invariants=["Emit"])
     r = ctx.tlc("TokenLimitGen", cfg, constants=K, name=name, simulate=simulate, depth=maxlen + 2, timeout=900,
                 workers=(1 if simulate else W), heap="3g")
@@ -435,13 +515,14 @@ def one_per_prefix(cases):
 
 def run(ctx):
     from concurrent.futures import ThreadPoolExecutor
-    ex = ThreadPoolExecutor(1)
+    ex = ThreadPoolExecutor(2)
     # the concurrent-use recordings (build with the race detector ~20 s, two recording runs) are made in the background;
     # the bookkeeping and the validation of what they recorded happen at the end, in this thread
     binp = ctx.go_build(PKG, OVERLAY, name="c08drv")
     conc_runs = ex.submit(conc_record, ctx, binp)
-    mc(ctx)
-    mc_monitor(ctx)
+    # so are the model-checking runs (they need nothing from the replay and the replay nothing from them); a failure
+    # of theirs (core.Infra) surfaces at the end of run(), after the real code has been judged
+    mc_runs = ex.submit(lambda: (mc(ctx), mc_monitor(ctx)))
     ctx.assumptions += ["server clock never ahead of the caller clock (DESIGN 5)", "caller clock monotone",
                         "breaker coin forced to never-reject (H2)"]
     if ctx.quick:
@@ -461,29 +542,46 @@ def run(ctx):
         tsims = [("ts", dict(configs="{<<3,2>>, <<2,5>>, <<5,3>>, <<4,8>>, <<7,4>>, <<1,1>>}", maxlen=60, maxn=5, maxstep=5, maxdown=0), 3000),
                  ("tso", dict(configs="{<<3,2>>, <<2,5>>, <<5,3>>}", maxlen=50, maxn=3, maxstep=3, maxdown=4), 400)]
     ctx.exhaustive = True
-    for name, kw in pplans:
-        cases = gen_period(ctx, name, **kw)
+    deferred = []
+
+    def stage(fn, *a, **kw):
+        """One family = one stage; the families are independent of each other.  Harness trouble in one of them must not
+        hide what another one observes on the real code: it is kept and raised at the end, unless something disagreed."""
+        try:
+            return fn(*a, **kw)
+        except core.Infra as e:
+            core.log("stage %s: harness trouble (deferred): %s" % (getattr(fn, "__name__", "?"), str(e)[:300]))
+            deferred.append(e)
+
+    def prepare(gen, name, kw, num=None):
+        cases = gen(ctx, name, **kw) if num is None else one_per_prefix(gen(ctx, name, simulate=num, **kw))
         path, _ = ctx.write_cases(name + ".ndjson", cases)
-        ctx.samples += core.sample_of(cases, 1)
-        ctx.replay(PKG, OVERLAY, "^TestVerifC08Period$", path, label=name, shards=16, binp=binp)
-    for name, kw, num in psims:
-        cases = one_per_prefix(gen_period(ctx, name, simulate=num, **kw))
-        path, _ = ctx.write_cases(name + ".ndjson", cases)
-        ctx.replay(PKG, OVERLAY, "^TestVerifC08Period$", path, label=name, shards=16, binp=binp)
-    for name, kw in tplans:
-        cases = gen_token(ctx, name, **kw)
-        path, _ = ctx.write_cases(name + ".ndjson", cases)
-        ctx.samples += core.sample_of(cases, 1)
-        ctx.replay(PKG, OVERLAY, "^TestVerifC08Token$", path, label=name, shards=16, binp=binp)
-    for name, kw, num in tsims:
-        cases = one_per_prefix(gen_token(ctx, name, simulate=num, **kw))
-        path, _ = ctx.write_cases(name + ".ndjson", cases)
-        ctx.replay(PKG, OVERLAY, "^TestVerifC08Token$", path, label=name, shards=16, binp=binp)
-    align(ctx, binp)
-    real_breaker(ctx, binp)
-    two_outages(ctx, binp)
-    concurrent(ctx, binp)
-    conc_stage(ctx, conc_runs.result())
+        return path, (core.sample_of(cases, 1) if num is None else [])
+
+    def replay_family(test, name, fut):
+        path, sample = fut.result()
+        ctx.samples += sample
+        ctx.replay(PKG, OVERLAY, test, path, label=name, shards=SHARDS, binp=binp)
+
+    # TLC generates the behaviours of the next families (third background thread) while the drivers replay the previous ones
+    genx = ThreadPoolExecutor(1)
+    fams = [("^TestVerifC08Period$", name, genx.submit(prepare, gen_period, name, kw)) for name, kw in pplans]
+    fams += [("^TestVerifC08Period$", name, genx.submit(prepare, gen_period, name, kw, num)) for name, kw, num in psims]
+    fams += [("^TestVerifC08Token$", name, genx.submit(prepare, gen_token, name, kw)) for name, kw in tplans]
+    fams += [("^TestVerifC08Token$", name, genx.submit(prepare, gen_token, name, kw, num)) for name, kw, num in tsims]
+    for test, name, fut in fams:
+        stage(replay_family, test, name, fut)
+    stage(align, ctx, binp)
+    stage(real_breaker, ctx, binp)
+    stage(two_outages, ctx, binp)
+    stage(outage_duration, ctx, binp)
+    stage(concurrent, ctx, binp)
+    stage(lambda: conc_stage(ctx, conc_runs.result()))
+    stage(mc_runs.result)
+    if deferred and not ctx.disagreements:
+        raise deferred[0]
+    if deferred:
+        ctx.notes["harness-trouble"] = [str(e)[:300] for e in deferred]
 
 
 def align(ctx, binp):
@@ -506,4 +604,25 @@ def replay(ctx, rp):
     if key.startswith("C08:period:align"):
         return align(ctx, ctx.go_build(PKG, OVERLAY, name="c08drv"))
     test = "^TestVerifC08Period$" if key.startswith("C08:period") else "^TestVerifC08Token$"
+    if key.startswith("C08:token:no-return"):
+        # the outage may have been long by accident (a slow restart) when the disagreement was seen: replay the behaviour as
+        # recorded and with the outage held for 1.3 / 2.6 / 5.3 s before Redis comes back (TokenLimit!Wait changes nothing of
+        # the state, so the predictions of all other steps stand; at most one hold per outage as in TokenLimitGen)
+        import json
+        st = json.loads(rp["case"])
+        cases = [st]
+        for ms in (1300, 2600, 5300):
+            out, held = [], False
+            for x in st:
+                if x["op"] == "down":
+                    held = False
+                if x["op"] == "hold":
+                    held = True
+                if x["op"] == "up" and x.get("ping") and not held:
+                    out.append(dict(op="hold", ms=ms))
+                out.append(x)
+            if out != st:
+                cases.append(out)
+        path, _ = ctx.write_cases("replay.ndjson", cases)
+        return ctx.replay(PKG, OVERLAY, test, path, label="replay", env=dict(VERIF_PAR=len(cases)))
     ctx.replay(PKG, OVERLAY, test, path, label="replay")
